@@ -158,6 +158,13 @@ def make_db(name):
         db = get_default_latex_context_db()
         db.add_context_category('verif-defs', prepend=True,
                                 macros=[MacroSpec('dm', '{', make_after_parsing_state_delta=_dm_after)])
+    elif name == 'embell':
+        # real code only: embellishment arguments (e{^_}: any of the markers, each followed by one expression, in any
+        # order and any number of times) and the one-character token argument t+
+        db.add_context_category('e', macros=[MacroSpec('ten', ['{', 'e{^_}']), MacroSpec('tb', ['e{^_}', '{']),
+                                             MacroSpec('op', ['t+', '[', '{']), MacroSpec('tq', ["e{^_'}"])])
+        db.set_unknown_macro_spec(MacroSpec(''))
+        db.set_unknown_environment_spec(EnvironmentSpec(''))
     elif name == 'bare':
         db.set_unknown_macro_spec(MacroSpec(''))
         db.set_unknown_environment_spec(EnvironmentSpec(''))
@@ -179,7 +186,7 @@ def ctx_wire(name):
 
 
 CONTEXTS = ['default', 'custom', 'custom-nofallback', 'bare']
-UNMODELLED_CONTEXTS = ['commasep', 'legacyverb', 'chained', 'chain2', 'chain2-ref', 'defs']          # wire entry 999 does not exist: model and implementation dump both say BADIN
+UNMODELLED_CONTEXTS = ['commasep', 'legacyverb', 'chained', 'chain2', 'chain2-ref', 'defs', 'embell']          # wire entry 999 does not exist: model and implementation dump both say BADIN
 SYM_LEGACYVERB = ['\\lstinline', '\\vb', '[o]', '*', '|', 'x', ' ', '{a}', '+a b+', '\n', '\\begin{lst}', '\\end{lst}', '%c\n', '[', '$']
 # what the 'chained' context's specifications MEAN for the mode of each argument / body ('T' text, 'M' math, '=' inherit),
 # written down here and not read back from the delta objects of the library
@@ -232,6 +239,7 @@ def chain2_strings(rnd, n):
     return out
 
 
+SYM_EMBELL = ['\\ten', '\\tb', '\\op', '\\tq', '{T}', '^', '_', "'", '{a}', 'x', ' ', '^{c}', '_b', '+', '[o]', '\\z', '$', '%c\n', '\n']
 SYM_COMMASEP = ['\\cs', '\\ck', '{', '}', ',', ',,', 'a', ' ', 'b,', '{c}', '%x\n', '$', '\\cs{', '\n\n', '[', '\\z']
 
 # ---------------------------------------------------------------------------
